@@ -324,23 +324,28 @@ func prngNew(mech string, gm bool, alg string, pass int, src io.Reader, strength
 	panic("harness: drbgprng: unknown mechanism " + mech)
 }
 
-// drbgprng family: the io.Reader wrapper over a scripted entropy source. Steps: cfg (with the source
-// script "src": [{kind, want, data}]), new (strength, p, res), read (n, res, exp, calls = number of
-// source reads consumed after the call).
+// drbgprng family: the io.Reader wrapper over a scripted entropy source. Steps: cfg, new (strength, p,
+// res), read (n, res, exp); every step lists the source reads the specification expects during the
+// call ("src": [{kind, want, data}]) and the number of source reads made after it ("calls").
 func prngRun(t *Trace, mech string, gm bool, alg string, exact bool, pass int) *Mismatch {
 	var r *drbg.DrbgPrng
-	var src *scriptedSource
+	src := &scriptedSource{}
 	for i, st := range t.Steps {
 		At(i)
+		if st.Has("src") {
+			src.calls = append(src.calls, stepList(st["src"])...)
+		}
 		switch st.Str("op") {
 		case "cfg":
-			src = &scriptedSource{calls: stepList(st["src"])}
 		case "new":
 			x, err := prngNew(mech, gm, alg, pass, src, st.Int("strength"), drbgArg(st.Hex("p"), pass))
 			if mm := DiffErr(i, err, st.Str("res") != "ok"); mm != nil {
 				return mm
 			}
 			if err == nil {
+				if x == nil {
+					return &Mismatch{Step: i, Kind: "mismatch", Got: "nil reader without error", Exp: "reader"}
+				}
 				r = x
 			}
 		case "read":
@@ -369,8 +374,11 @@ func prngRun(t *Trace, mech string, gm bool, alg string, exact bool, pass int) *
 		default:
 			panic("harness: drbgprng: unknown op " + st.Str("op"))
 		}
-		if src != nil && src.bad != "" {
+		if src.bad != "" {
 			return &Mismatch{Step: i, Kind: "mismatch", Got: src.bad, Exp: "the specified use of the entropy source"}
+		}
+		if src.k != len(src.calls) {
+			return &Mismatch{Step: i, Kind: "mismatch", Got: fmt.Sprint("entropy reads so far: ", src.k), Exp: fmt.Sprint(len(src.calls))}
 		}
 		if st.Has("calls") && src.k != st.Int("calls") {
 			return &Mismatch{Step: i, Kind: "mismatch", Got: fmt.Sprint("entropy reads so far: ", src.k), Exp: fmt.Sprint(st.Int("calls"))}
@@ -388,7 +396,7 @@ func init() {
 			}
 			mech, gm, exact := c.Str("mech"), c.Bool("gm"), c.Bool("exact")
 			for _, alg := range strList(c["algs"]) {
-				for pass := 0; pass < 2; pass++ {
+				for pass := 0; pass < c.IntOr("passes", 2); pass++ {
 					if mm := run(t, mech, gm, alg, exact, pass); mm != nil {
 						mm.Note = fmt.Sprintf("alg=%s pass=%d %s", alg, pass, mm.Note)
 						return mm
